@@ -119,15 +119,19 @@ def bounded_nested(seed, n):
 
     # every designed configuration of every family, then a deterministic shuffle (so that a small sample is not biased to the first designs)
     pool = []
+    flat_pool = []
     for ka in B.FLAT:
         for kb in B.FLAT:
-            pool += list(K.flat_pairs(ka, kb, rng, 40))
+            nd = len(K.flat_designs(ka, kb, rng))
+            flat_pool += list(K.flat_pairs(ka, kb, rng, nd))  # every designed relative position of every flat pair exactly once
     bodies = list(K.polygons(rng, 4)) + list(K.polyhedra(rng, 4))
     for Kb in bodies:
         for kind in B.FLAT:
             pool += [(f, Kb, lab) for f, lab in K.flat_vs_convex(kind, Kb, rng, 24)]
     pool += list(K.convex_pairs(rng, 130))
     rng.shuffle(pool)
+    pool = flat_pool + pool
+    n = n + len(flat_pool)
     count = 0
     while count < n:
         for _once in (0,):
@@ -155,6 +159,11 @@ def bounded_nested(seed, n):
                 acc.case(klass)
                 case = dict(a=B.ser(a), b=B.ser(b), c=B.ser(c), label=label)
                 A, Bb, Cc = O.to_lib(a, "float"), O.to_lib(b, "float"), O.to_lib(c, "float")
+                inner = B._call(g.intersection, A, Bb)
+                if inner[0] == "exc" or not O.matches(inner[1], r_ab, 1e-7)[0]:
+                    # the vertices / end points of intersection(a, b) must lie in both operands: compare with the exact common set
+                    acc.fail(klass, "intersection(a, b) = %r, but the common point set is %s" % (inner[1], "empty" if r_ab is None else r_ab[0]), case, expected=B.ser(r_ab))
+                    continue
                 left = B._call(lambda: g.intersection(g.intersection(A, Bb), Cc))
                 right = B._call(lambda: g.intersection(A, g.intersection(Bb, Cc)))
                 for nm, res in (("intersection(intersection(a, b), c)", left), ("intersection(a, intersection(b, c))", right)):
